@@ -125,9 +125,12 @@ def run(ctx):
         ctx.mc("Range", "Range.MC.cfg", workers=8, timeout=2400,
                subst={"MaxParts": "2", "MaxPartSize": "1", "MaxSize": "2", "MaxSpecs": "3"})
     # the deviation branches are live: with all tags enabled the code model must break the property
-    dv = ctx.tlc("Range", "Range.Dev.cfg", workers=2, timeout=300, count_mc=False)
-    if dv.outcome != "invariant" or dv.violated != "CodeConformsHTTP":
-        raise vlib.Infra("deviation branches of Range.tla are dead: %s %s\n%s" % (dv.outcome, dv.violated, dv.output[-1500:]))
+    # (thorough only; in quick the same is witnessed by the findings hit on the real trace)
+    if not ctx.quick():
+        dv = ctx.tlc("Range", "Range.Dev.cfg", workers=2, timeout=300, count_mc=False)
+        if dv.outcome != "invariant" or dv.violated != "CodeConformsHTTP":
+            raise vlib.Infra("deviation branches of Range.tla are dead: %s %s\n%s" %
+                             (dv.outcome, dv.violated, dv.output[-1500:]))
 
     # 2. GEN: TLC enumerates every symbolic single-spec case of every object kind
     g = ctx.tlc("RangeGen", "Range.Gen.cfg", workers=1, timeout=300, count_mc=False)
